@@ -169,6 +169,26 @@ pub fn main(args: &[String]) -> i32 {
         if rng.gen_bool(0.4) {
             d = d.passed_objects(rng.gen_range(0..(nobj as u32 + 2)));
         }
+        // the *_for_mode entry points on the unconverted osu! source, under a key mod (the column count the conversion would
+        // not pick on its own): strains and attributes must come from the same conversion
+        if mode == "osu" && k % 4 == 0 {
+            for keys in ["4K", "8K"] {
+                let dk = d.clone().mods(crate::settings::Cfg::default().with_acronyms(keys).game_mods());
+                rich += 1;
+                let a = guarded(|| dk.calculate_for_mode::<rosu_pp::mania::Mania>(&native));
+                let st = guarded(|| dk.strains_for_mode::<rosu_pp::mania::Mania>(&native));
+                match (a, st) {
+                    (Ok(Ok(a)), Ok(Ok(st))) => {
+                        let want = weighted(&st.strains, 0.9) * 0.018;
+                        if !rel_close(want, a.stars, 1e-12) {
+                            mism.push(json!({"what": "mania_stars_from_peaks_for_mode", "label": format!("rich {k} osu source as mania under {keys} n={nobj}"), "expected": want, "observed": a.stars, "osu_text": text}));
+                        }
+                    }
+                    (Ok(Err(_)), Ok(Err(_))) => {}
+                    (a, st) => mism.push(json!({"what": "for_mode_entry_points_disagree", "label": format!("rich {k} osu source as mania under {keys}"), "expected": format!("{:?}", a.map(|r| r.is_ok())), "observed": format!("{:?}", st.map(|r| r.is_ok())), "osu_text": text})),
+                }
+            }
+        }
         let targets: Vec<&str> = if mode == "osu" && k % 8 == 0 { vec!["osu", "taiko", "catch", "mania"] } else { vec![mode] };
         for t in targets {
             let gm = match t {
